@@ -181,6 +181,11 @@ def execute(case: Dict[str, Any], M: Optional[Model] = None, built: Any = None, 
                     # the limit in force is the reconfigured one, not the one given at construction
                     conf["max_concurrency"] = M.mc
                 b.dag.config_from_dict(conf)
+            early_target: Any = None
+            if built is None and case.get("early_exec"):
+                # the executor object is created BEFORE the reconfiguration below and run after it: the node attributes
+                # in force when it runs are the reconfigured ones (case["early_exec"] is only drawn for is_sequential)
+                early_target = make_executor(b, case.get("sel"))
             if built is None and (case.get("reconf") or case.get("reconf_seq")):
                 nodes: Dict[str, Any] = {}
                 for s, p in (case.get("reconf") or {}).items():
@@ -242,13 +247,15 @@ def execute(case: Dict[str, Any], M: Optional[Model] = None, built: Any = None, 
                 sel = None
             if target_override is not None:
                 target = target_override
+            elif early_target is not None:
+                target = early_target
             elif sel and any(sel.get(k) is not None for k in "TXR"):
                 target = make_executor(b, sel)
         except BaseException as e:  # noqa: BLE001 - reported by the oracles
             out.build_exc = e
             return out
         ex = sched.Exec(case.get("mode", "free"), choices=case.get("choices", ()), failing=case.get("failing", ()),
-                        sleeps=case.get("sleeps"))
+                        sleeps=case.get("sleeps"), spawn_fail=case.get("spawn_fail"))
         out.ex = ex
         out.invoker = threading.get_ident()
         try:
